@@ -89,7 +89,13 @@ func Spawn(name string, f func()) *Thread {
 func (t *Thread) Done() bool { return t.At == "done" }
 
 // Release lets a parked thread run; it does not wait for it to stop again.
-func (t *Thread) Release() { t.release <- struct{}{} }
+func (t *Thread) Release() {
+	select {
+	case t.release <- struct{}{}:
+	case <-time.After(60 * time.Second):
+		panic("verifsched: Release on thread " + t.Name + " which is not parked (last seen at " + t.At + ")")
+	}
+}
 
 // Await waits up to d for the thread to reach its next point (or finish).
 func (t *Thread) Await(d time.Duration) (string, bool) {
